@@ -794,8 +794,8 @@ pub fn run<'tcx>(tcx: TyCtxt<'tcx>) {
     let mut impls = Vec::new();
     let mut aliases = Vec::new();
     let items = tcx.hir_crate_items(());
-    for id in items.free_items() {
-        let did = id.owner_id.to_def_id();
+    for ldid in items.definitions() {
+        let did = ldid.to_def_id();
         match tcx.def_kind(did) {
             DefKind::Struct | DefKind::Enum => cx.adt(did),
             DefKind::Impl { .. } => {
